@@ -38,9 +38,15 @@ REGISTRY = dict(
           "keeps the canonical form; dark-atom padding: a dark atom has occupation 0 and zero correlations, the k-th good atom the "
           "values of site k of the reduced state, norm and energy unchanged; values are real and occupation, <n_i n_j> lie in [0,1] "
           "for a normalised state. Validated only (dense oracle 1e-9, not proved): entanglement entropy (svdvals), the truncation "
-          "inside hamiltonian @ hamiltonian (C10), that the emu-mps Hamiltonian MPO read in the Tensor model has the dense H of "
-          "C05 as operator semantics (no bridge lemma between Model/HamMPO and Model/Tensor), that orthogonalize establishes the "
-          "canonical form (C10; checked numerically on every tape case); density-matrix variance >= 0 (needs positivity of rho)."),
+          "inside hamiltonian @ hamiltonian (C10), that orthogonalize establishes the "
+          "canonical form (C10; checked numerically on every tape case); density-matrix variance >= 0 (needs positivity of rho). "
+          "Energy bridge (Props/C13Energy.lean, FULL for every N>=2, every d, Rydberg and XY, symmetric U, arbitrary single-site terms): the "
+          "make_H/update_H factors of C05's model, laid out numerically as the code lays them out (Model/HamBridge.toTensor), have the "
+          "dense Hamiltonian matrix of C05 as their operator semantics opAmp, so the emu-mps Energy MPO.expect(H, psi) equals "
+          "sum conj(psi_s) <s|H_dense|t> psi_t for every MPS, also after any sequence of update_H calls and with dark-atom padding "
+          "(reduced H on the reduced state), and for a normalised MPS it is >= the ground energy of H_dense (the least eigenvalue when "
+          "h_k, op are Hermitian and U real; C09's variational bound), tied to the code by exact comparison of the real MPO.expect on the "
+          "real factors with the model and its dense builder on Gaussian-integer MPS (all sparsity patterns N<=4) and by real runs."),
     note=("Trusted: Lean kernel + propext/Classical.choice/Quot.sound; Mathlib; hand-written Model.SvObs / Model.MpsObs tied by exact "
           "correspondence (vector_norm**2 compared at 1e-12; MPS: Gaussian-integer states in exact canonical form with an exact "
           "isometric qr, plus recorded real-qr tapes at 1e-10); entropy and truncation are differential testing only (1e-9 "
@@ -53,6 +59,8 @@ PROP_MODULE = "EmuVerif.Props.C13"
 AUDIT = "Audit/C13.lean"
 MPS_MODULE = "EmuVerif.Props.C13Mps"      # the emu-mps half (Model.MpsObs / Model.Tensor)
 MPS_AUDIT = "Audit/C13Mps.lean"
+ENERGY_MODULE = "EmuVerif.Props.C13Energy"   # the C05 <-> C11 bridge: energy = <psi|H_dense|psi> (Model.HamBridge)
+ENERGY_AUDIT = "Audit/C13Energy.lean"
 RTOL_TAPE = 1e-12
 RTOL_ORACLE = 1e-9
 STATE = {"compat": False}
@@ -657,7 +665,7 @@ def check(rep: Report, tier: str, seed: int) -> None:
                 "states of norm 0.3..3 and 2-4 step runs whose norm decays without a jump (random.uniform patched to 0) or is truncated away")
     rep.assumptions = [
         "emu-mps: entanglement entropy and the truncation inside hamiltonian @ hamiltonian are validated against dense definitions "
-        "(1e-9), not proved; that the emu-mps Hamiltonian MPO has the dense H as operator semantics is validated (energy oracle)",
+        "(1e-9), not proved",
         "torch.linalg.vector_norm(x)**2 is compared with the exact sum of squares at 1e-12 relative",
         "binary64 rounding outside the theorems",
     ]
@@ -668,6 +676,10 @@ def check(rep: Report, tier: str, seed: int) -> None:
     rep.obligations = ob + [o for o in rep.obligations if o not in ob]
     rep.checker_cmd = cmd + " ; " + rep.checker_cmd
     rep.extra["t_lean_stage_s"] = round(time.time() - t0, 1)
+    # third Lean stage (Props/C13Energy: heavier Mathlib imports) on a scratch report, concurrently with the Python side
+    from harness.props.extra_stage import ExtraLeanStage
+    energy_stage = ExtraLeanStage(rep, [(ENERGY_MODULE, ENERGY_AUDIT)], thorough=(tier == "thorough"))
+    energy_stage.start()
     correspondence(rep, seeded(seed * 7919 + 13), tier)
     oracle_sv(rep, seeded(seed * 104729 + 13), 24 if tier == "quick" else 300)
     oracle_mps(rep, seeded(seed * 1299709 + 13), 60 if tier == "quick" else 600)
@@ -678,6 +690,11 @@ def check(rep: Report, tier: str, seed: int) -> None:
     from harness.props import c13_mps
     c13_mps.run(rep, tier, seed, Driver())
     rep.extra["t_mps_correspondence_s"] = round(time.time() - t1, 1)
+    t1 = time.time()
+    from harness.props import c13_energy
+    c13_energy.run(rep, tier, seed, Driver())
+    rep.extra["t_energy_bridge_s"] = round(time.time() - t1, 1)
+    energy_stage.merge()
     rep.extra["t_total_s"] = round(time.time() - t0, 1)
     if rep.broken and not rep.failing:
         search(rep, seed, 100 if tier == "quick" else 1000)
@@ -777,6 +794,9 @@ def replay(rep: Report, path: str) -> int:
         elif d.get("kind") == "mps-fill-real":
             from harness.props import c13_mps
             bad += c13_mps.replay_fill(d)
+        elif d.get("kind") in ("energy-exact", "energy-run"):
+            from harness.props import c13_energy
+            bad += c13_energy.replay_case(d)
         else:
             print("replay: no stored input for", f["what"][:100])
     return 1 if bad else 0
